@@ -29,6 +29,7 @@ namespace rkverif {
     int v;
     int *p;
   };
+
 }  // namespace rkverif
 
 namespace rkcommon {
@@ -125,4 +126,52 @@ namespace rkverif {
   constexpr bool optional_int_converts_to_int       = std::is_convertible<Optional<int> &, int>::value;
   constexpr bool optional_string_converts_to_bool   = std::is_convertible<Optional<std::string> &, bool>::value;
   constexpr bool optional_double_converts_to_double = std::is_convertible<const Optional<double> &, double>::value;
+
+  // R-C09-16 positive / negative example: std::move on a deduced `U &&` parameter
+  template <typename U>
+  inline void fwd_moves(std::string &dst, U &&v)      // must be reported
+  {
+    dst = std::move(v);
+  }
+  template <typename U>
+  inline void fwd_forwards(std::string &dst, U &&v)   // must not be reported
+  {
+    dst = std::forward<U>(v);
+  }
+
+  // R-C09-17 positive / negative example: unconditional noexcept around a payload construction
+  template <typename T>
+  struct NxSlot
+  {
+    alignas(T) unsigned char bytes[sizeof(T)];
+    bool live{false};
+    bool engaged() const noexcept                     // must not be reported
+    {
+      return live;
+    }
+    void take(NxSlot &&o) noexcept                    // must be reported: T(T&&) may throw
+    {
+      if (o.live) {
+        new (bytes) T(std::move(*reinterpret_cast<T *>(o.bytes)));
+        live = true;
+      }
+    }
+    void take_checked(NxSlot &&o) noexcept(std::is_nothrow_move_constructible<T>::value)   // must not be reported
+    {
+      if (o.live) {
+        new (bytes) T(std::move(*reinterpret_cast<T *>(o.bytes)));
+        live = true;
+      }
+    }
+  };
+  inline bool nx_slot_use(NxSlot<std::string> &a, NxSlot<std::string> &b, NxSlot<std::string> &c)
+  {
+    a.take(std::move(b));
+    a.take_checked(std::move(c));
+    std::string s;
+    std::string t("x");
+    fwd_moves(s, t);
+    fwd_forwards(s, t);
+    return a.engaged();
+  }
 }  // namespace rkverif
